@@ -25,6 +25,7 @@ def main():
     src = args[1] if len(args) > 1 and not args[1].startswith("--") else f"/tmp/seed/{prop}/out"
     checks = [prop]
     tier = "quick"
+    fast = "--fast" in args  # skip the repository's suite and the demonstration (re-checks of already verified changes)
     for i, a in enumerate(args):
         if a == "--checks":
             checks = sorted(f[:-5] for f in os.listdir(os.path.join(V, "props.d")) if re.match(r"C\d+\.json", f)) if args[i + 1] == "all" else args[i + 1].split(",")
@@ -52,14 +53,15 @@ def main():
         res["builds"] = rc == 0
         if rc != 0:
             print("does not build:", out[-800:])
-        rc1, out1 = sh("go test -mod=mod -vet=off -count=1 ./... 2>&1 | grep -v 'no test files' | grep -v '^ok' | head -20", cwd=scratch)
-        rc2, out2 = sh("go test -mod=mod -vet=off -count=1 ./... 2>&1 | grep -v 'no test files' | grep -v '^ok' | head -20", cwd=os.path.join(scratch, "test"))
-        res["suite_passes"] = (out1.strip() == "" and out2.strip() == "")
-        if not res["suite_passes"]:
-            print("SUITE OUTPUT:", (out1 + out2)[-1500:])
-        # demonstration
-        demo = os.path.join(src, "demo")
-        res["demo"] = run_demo(demo, scratch, patch)
+        if not fast:
+            rc1, out1 = sh("go test -mod=mod -vet=off -count=1 ./... 2>&1 | grep -v 'no test files' | grep -v '^ok' | head -20", cwd=scratch)
+            rc2, out2 = sh("go test -mod=mod -vet=off -count=1 ./... 2>&1 | grep -v 'no test files' | grep -v '^ok' | head -20", cwd=os.path.join(scratch, "test"))
+            res["suite_passes"] = (out1.strip() == "" and out2.strip() == "")
+            if not res["suite_passes"]:
+                print("SUITE OUTPUT:", (out1 + out2)[-1500:])
+            # demonstration
+            demo = os.path.join(src, "demo")
+            res["demo"] = run_demo(demo, scratch, patch)
         # checks
         env = dict(ENV, VERIF_REPO=scratch)
         caught = {}
